@@ -53,6 +53,7 @@ from ._mapspec import (
 )
 from ._simplify import _func_node_colors, _identify_combinable_nodes, simplified_pipeline
 from ._validation import (
+    same_default,
     validate_consistent_defaults,
     validate_consistent_type_annotations,
     validate_scopes,
@@ -927,7 +928,7 @@ class Pipeline:
             if arg in self.defaults:
                 pipeline_default = self.defaults[arg]
                 if arg in defaults:
-                    assert defaults[arg] == pipeline_default
+                    assert same_default(defaults[arg], pipeline_default)
                     continue
                 defaults[arg] = self.defaults[arg]
         self._internal_cache.func_defaults[func.output_name] = defaults
